@@ -63,9 +63,11 @@ fn gen_ty(d: &mut D, structs: &[usize], enums: &[usize], allow_nested: bool) -> 
 fn gen_field(d: &mut D, name: String, id: usize, j: usize, structs: &[usize], enums: &[usize], nested: bool, in_variant: bool) -> Field {
     let mut f = Field::plain(&name, gen_ty(d, structs, enums, nested));
     if d.ratio(1, 5) {
-        f.rename = Some(match d.below(4) {
+        f.rename = Some(match d.below(5) {
             // (the field's own identifier as its explicit name: stands as written under every case rule)
             3 => name.clone(),
+            // (the four keywords a meta path may start with are names like any other: `#[builder(crate = "..")]`)
+            4 => d.pick(&["crate", "self", "super", "Self"]).to_string(),
             0 => format!("rn{}_{}", id, j),
             1 => format!("p{}::q{}", id, j),
             _ => format!("Rn{}X{}", id, j),
